@@ -99,6 +99,14 @@ def gen_pair(rng):
     lattice = rng.random() < 0.45
     g = (lambda m: rng.integers(0, 4, (m, d)).astype(float)) if lattice else (lambda m: rng.normal(size=(m, d)))
     s1, s2 = g(n1), g(n2)
+    if rng.random() < 0.15:
+        # map-like coordinates: a large offset and a fine grid (more than 24 significant bits; squared grid steps stay far above
+        # the rounding of a double-precision distance computation)
+        off = rng.uniform(2e4, 2e5, size=d).round(0)
+        step = float(rng.choice([0.01, 0.02, 0.05]))
+        s1 = off + rng.integers(0, 40, (n1, d)) * step
+        s2 = off + rng.integers(0, 40, (n2, d)) * step
+        lattice = "fine"
     cross = False
     if rng.random() < 0.35:
         m = max(1, min(n1, n2) // 2)
@@ -120,6 +128,8 @@ def run_pair(case, ctx):
         U = np.unique(np.vstack([s1, s2]), axis=0)
         k = int(rng.integers(1, len(U) + 1))
     base = dict(s1=s1.tolist(), s2=s2.tolist(), k=k)
+    if lattice == "fine":
+        ctx.count("pairs_large_offset_fine_grid")
     p = NNSpacePartitioner(k)
     p.build(s1.copy(), s2.copy())
     if not check_partition(p, s1, s2, k, ctx, base, "partitioner"):
@@ -192,8 +202,20 @@ def run_nndvi(case, ctx):
         batches = gen.batch_sequence(rng, int(rng.integers(6, 16)), d, size=(6, 34), shift_p=0.4, dup_p=0.3, integer_p=0.25)
         # k from 1 up to well beyond the size of a single test batch (the neighbourhood is taken over the pooled points)
         kw = dict(k_nn=int(rng.choice([1, 2, 3, 5, 8, 12, 20, 30])), sampling_times=int(rng.choice([10, 20, 40])), alpha=float(rng.choice([0.01, 0.05, 0.2, 0.4])))
+        r = rng.random()
+        if r < 0.12:
+            # the reference arrives as whole numbers with an integer dtype, later batches as floats
+            ref_dtype = "int64"
+            batches[0] = np.round(batches[0] * 3)
+        elif r < 0.2:
+            ref_dtype = "uint8"
+            batches[0] = np.round(np.abs(batches[0]) * 20) % 256
+            batches[1:] = [np.round(b * 20) + 256 * int(rng.integers(0, 3)) for b in batches[1:]]
+    ref_dtype = locals().get("ref_dtype") or case.get("literal", {}).get("ref_dtype")
+    if ref_dtype:
+        ctx.count("reference_dtype:" + ref_dtype)
     det = NNDVI(**kw)
-    det.set_reference(batches[0].copy())
+    det.set_reference(batches[0].astype(ref_dtype) if ref_dtype else batches[0].copy())
     ref = batches[0]
     cmp_ = Cmp()
     orig = nndvi_mod.NNSpacePartitioner
@@ -207,9 +229,9 @@ def run_nndvi(case, ctx):
                 np.random.seed(rngtap.seed_for(case.get("seed_key", case["id"]), i))
                 Recorder.built = []
                 mark = tap.mark()
-                det.update(X.copy())
+                det.update(X.astype("int64") if ref_dtype == "uint8" else X.copy())
                 ev = tap.since(mark, "permutation")
-                base = dict(params=kw, batches=[b.tolist() for b in batches[: i + 2]], step=i)
+                base = dict(params=kw, batches=[b.tolist() for b in batches[: i + 2]], step=i, ref_dtype=ref_dtype)
                 ctx.count("nndvi_updates")
                 if len(ref) != len(X):
                     ctx.count("nndvi_unequal_pairs")
